@@ -1,10 +1,9 @@
 //@ module: air_call_data_verify
 //@ crate: aquavm-air
 //@ attach: air/src/execution_step/instructions/call/call_result_setter.rs
-//@ requires: data_cid_helpers
-//@ functions: populate_context_from_data (Scalar and Stream arms up to and including the parameter check; kind table); ExecutionCidState::resolve_service_info; get_service_result_agg_by_cid; get_value_by_cid; get_tetraplet_by_cid; verifier::verify_call; CidTracker::get
-//@ stubs: std::hash::RandomState::new -> fixed keys; alloc::fmt::format -> empty String; thread/tracing stubs as in _air_stubs.rs
-//@ assumes: PARTIAL ExecutionCtx: only cid_state is initialised, with one stored service result {value CID v1 -> 1, tetraplet CID t1 -> stored tetraplet, aggregate CID a1 -> (v1, stored hash, t1)} inserted under literal CIDs (no hashing: BLAKE3 is out of reach); the instruction's tetraplet / argument hash differ from the stored ones in at least one symbolically chosen component
+//@ functions: populate_context_from_data (Scalar and Stream arms up to and including the parameter check; kind table); ExecutionCidState::resolve_service_info; verifier::verify_call
+//@ stubs: Scalars::set_scalar_value / Streams::add_stream_value -> assert(false) (reaching the binding step with mismatching parameters IS the violation); ExecutionCidState::get_service_result_agg_by_cid / get_value_by_cid / get_tetraplet_by_cid -> return the harness's stored aggregate / value / tetraplet (the three are plain HashMap lookups; hashbrown inserts did not finish in 30 min; the code under test is the wiring of what is looked up into the parameter check); std::hash::RandomState::new -> fixed keys; alloc::fmt::format -> empty String; thread/tracing stubs as in _air_stubs.rs
+//@ assumes: PARTIAL ExecutionCtx: no field is initialised (the CID-store getters are stubbed, nothing else is read before the parameter check rejects); the instruction's tetraplet / argument hash differ from the stored ones in at least one symbolically chosen component
 //@ decides: C14: a stored call result (scalar or stream) whose stored tetraplet or argument hash does not match the instruction where it is used is rejected by populate_context_from_data before anything is bound; a stored result of the wrong kind for the instruction's output (scalar vs stream vs unused) is rejected
 //@ outside: the accepting direction (needs the scalar / stream stores of the full context), digest verification of the CIDs themselves
 //@ harness: name=c14_stored_scalar_result_must_match_instruction props=C14 cap=1800 cost=200 sym="which of the 5 components (hash, peer, service, function, lens) differ between instruction and stored aggregate: any non-empty subset" bound="one stored aggregate; 1-byte strings"
@@ -13,11 +12,9 @@
 
 use super::*;
 use air_interpreter_cid::CID;
-use air_interpreter_data::verif_kani_data_cid_helpers::insert_with_cid;
 use air_interpreter_data::RawValue;
 use air_interpreter_data::ServiceResultCidAggregate;
 use std::mem::MaybeUninit;
-use std::ptr::addr_of_mut;
 
 include!("_air_stubs.rs");
 
@@ -38,19 +35,41 @@ fn tetraplet(c: [bool; 4]) -> crate::SecurityTetraplet {
     }
 }
 
-/// context with one stored service result; returns the aggregate's CID text
+static mut STORED_TETRAPLET: [bool; 4] = [false; 4];
+static mut STORED_HASH: bool = false;
+
+fn agg_stub(_s: &ExecutionCidState, _cid: &CID<ServiceResultCidAggregate>) -> Result<Rc<ServiceResultCidAggregate>, UncatchableError> {
+    let hash = unsafe { pick(STORED_HASH, "h", "k") };
+    Ok(Rc::new(ServiceResultCidAggregate::new(CID::new("v1"), hash.into(), CID::new("t1"))))
+}
+fn value_stub(_s: &ExecutionCidState, _cid: &CID<RawValue>) -> Result<crate::JValue, UncatchableError> {
+    Ok(crate::JValue::Null)
+}
+fn tetraplet_stub(_s: &ExecutionCidState, _cid: &CID<crate::SecurityTetraplet>) -> Result<RcSecurityTetraplet, UncatchableError> {
+    Ok(Rc::new(tetraplet(unsafe { STORED_TETRAPLET })))
+}
+
+/// Binding a stored result into the scalar / stream store is the step that must NOT be reached when the
+/// parameters mismatch: the stubs turn reaching it into a failed check (and keep CBMC out of hashbrown
+/// running on uninitialised context fields).
+fn set_scalar_stub<'i: 'i>(_s: &mut Scalars<'i>, _name: impl Into<String>, value: ValueAggregate) -> ExecutionResult<bool> {
+    kani::assert(false, "C14: a stored result with mismatching parameters or kind must not be bound to a scalar");
+    std::mem::forget(value);
+    Ok(true)
+}
+fn add_stream_value_stub(_s: &mut Streams, d: StreamValueDescriptor<'_>) -> ExecutionResult<()> {
+    kani::assert(false, "C14: a stored result with mismatching parameters or kind must not be added to a stream");
+    std::mem::forget(d);
+    Ok(())
+}
+
+/// context whose CID stores are never read (getters stubbed): nothing initialised
 fn ctx_with_stored_result(stored: [bool; 4], stored_hash: bool) -> MaybeUninit<ExecutionCtx<'static>> {
-    let mut u = MaybeUninit::<ExecutionCtx<'static>>::uninit();
-    let p = u.as_mut_ptr();
-    let mut cid_state = ExecutionCidState::new();
-    let value_cid = insert_with_cid(&mut cid_state.value_tracker, "v1", RawValue::from_value(crate::JValue::from(1u32)));
-    let tetraplet_cid = insert_with_cid(&mut cid_state.tetraplet_tracker, "t1", tetraplet(stored));
-    let agg = ServiceResultCidAggregate::new(value_cid, pick(stored_hash, "h", "k").into(), tetraplet_cid);
-    let _ = insert_with_cid(&mut cid_state.service_result_agg_tracker, "a1", agg);
     unsafe {
-        addr_of_mut!((*p).cid_state).write(cid_state);
+        STORED_TETRAPLET = stored;
+        STORED_HASH = stored_hash;
     }
-    u
+    MaybeUninit::<ExecutionCtx<'static>>::uninit()
 }
 
 fn any4() -> [bool; 4] {
@@ -95,14 +114,12 @@ macro_rules! with_stubs {
     ($name:ident, $body:expr) => {
         #[kani::proof]
         #[kani::unwind(6)]
-        #[kani::stub(std::hash::RandomState::new, random_state_stub)]
+        #[kani::stub(crate::execution_step::execution_context::cid_state::ExecutionCidState::get_service_result_agg_by_cid, agg_stub)]
+        #[kani::stub(crate::execution_step::execution_context::cid_state::ExecutionCidState::get_value_by_cid, value_stub)]
+        #[kani::stub(crate::execution_step::execution_context::cid_state::ExecutionCidState::get_tetraplet_by_cid, tetraplet_stub)]
+        #[kani::stub(crate::execution_step::execution_context::scalar_variables::Scalars::set_scalar_value, set_scalar_stub)]
+        #[kani::stub(crate::execution_step::execution_context::streams_variables::Streams::add_stream_value, add_stream_value_stub)]
         #[kani::stub(alloc::fmt::format, fmt_stub)]
-        #[kani::stub(std::thread::current::current, thread_current_stub)]
-        #[kani::stub(std::thread::park, thread_park_stub)]
-        #[kani::stub(std::thread::Thread::unpark, thread_unpark_stub)]
-        #[kani::stub(tracing::dispatcher::get_default, dispatcher_get_default_stub)]
-        #[kani::stub(tracing::span::Span::new, span_new_stub)]
-        #[kani::stub(tracing::callsite::DefaultCallsite::interest, callsite_interest_stub)]
         fn $name() {
             $body
         }
